@@ -1,5 +1,6 @@
 """Verification of one function against its sidecar contract, and discharge of the obligations."""
 import ast
+import os
 import time
 import traceback
 
@@ -86,6 +87,7 @@ def verify_function(repo, qual, con, types, contracts, specfuns=None, timeout_ms
         cases = con.get("cases") or [{}]
         for ci, case in enumerate(cases):
             E.loop_counter = {}
+            E.active_case = case
             P = Path()
             params = dict(con.get("params", {}))
             params.update(case.get("params", {}))
@@ -121,6 +123,7 @@ def verify_function(repo, qual, con, types, contracts, specfuns=None, timeout_ms
                 if isinstance(node, ast.Lambda):
                     o1 = [(p, ("ret", v)) for (p, v) in E.ev(node.body, P, cctx)]
                 else:
+                    E.index_loops(node)
                     o1 = E.exec_block(node.body, P, cctx, E.nonlocals_of(node))
                 E.func_stack.pop()
                 o1 = list(o1) + [(p, ("exc", nm)) for (p, nm) in E.raised]
@@ -181,7 +184,10 @@ def verify_function(repo, qual, con, types, contracts, specfuns=None, timeout_ms
         if trace:
             sys.stderr.write("[pyvc] %s: symbolic execution %.1fs, %d obligations, %d feasibility checks\n"
                              % (qual, time.time() - t0, len(E.obligations), E.feas_checks))
+        only = os.environ.get("PYVC_ONLY")
         for ob in E.obligations:
+            if only and only not in ob.name:
+                continue
             r = discharge(ob, timeout_ms)
             if trace and (r["time"] > 0.5 or r["verdict"] != "discharged"):
                 sys.stderr.write("[pyvc]   %s %s %.2fs\n" % (r["name"], r["verdict"], r["time"]))
@@ -199,10 +205,28 @@ def discharge(ob, timeout_ms=10000):
     for c in ob.pc:
         s.add(c)
     s.add(z3.Not(ob.goal))
+    if os.environ.get("PYVC_DUMP") and os.environ["PYVC_DUMP"] in ob.name:
+        import pickle
+        open("/tmp/pyvc_dump_%d.smt2" % len(ob.pc), "w").write(s.to_smt2())
+        open("/tmp/pyvc_dump_goal_%d.txt" % len(ob.pc), "w").write(str(ob.goal))
+    s.set("timeout", min(timeout_ms, 4000))
     r = s.check()
+    solver = "z3"
+    if r == z3.unknown:
+        # second configuration: deeper eager quantifier instantiation (chains of list/heap axioms); measured: queries
+        # that time out with the default threshold are decided in seconds with it
+        s2 = z3.Solver()
+        s2.set("timeout", timeout_ms)
+        s2.set("qi.eager_threshold", 100.0)
+        for c in ob.pc:
+            s2.add(c)
+        s2.add(z3.Not(ob.goal))
+        r = s2.check()
+        if r != z3.unknown:
+            s = s2
+            solver = "z3(qi.eager_threshold=100)"
     verdict = "discharged" if r == z3.unsat else ("refuted" if r == z3.sat else "unknown")
     model = None
-    solver = "z3"
     if r == z3.sat:
         m = s.model()
         model = {str(d): str(m[d]) for d in m.decls() if not str(d).startswith(("H_", "k!", "pow10", "elem!"))}
